@@ -103,20 +103,52 @@ def eval_comprehension(interp, node, env, kind):
     return results
 
 
-def _append_targets(body):
-    """names X for a body consisting only of `X.append(expr)` statements, else None"""
-    out = []
+class _Collector:
+    """stands for a list that a map-style loop appends to, while one iteration is evaluated"""
+
+    def __init__(self, name):
+        self.name = name
+        self.items = []
+
+    def pyvc_getattr(self, interp, attr):
+        from .values import Builtin
+
+        if attr == "append":
+            return Builtin("collector.append", lambda it, a, k: self.items.append(a[0]))
+        raise Unsupported(f"list method {attr} inside a map-style loop")
+
+
+def _map_loop_shape(body):
+    """a loop body that is a *map*: simple assignments to local names and `X.append(expr)` calls.
+    Returns (appended list names, assigned local names) or None."""
+    apps, assigned = [], []
     for st in body:
-        if not (isinstance(st, ast.Expr) and isinstance(st.value, ast.Call)):
+        if isinstance(st, ast.Expr) and isinstance(st.value, ast.Call):
+            f = st.value.func
+            if isinstance(f, ast.Attribute) and f.attr == "append" and isinstance(f.value, ast.Name) \
+                    and len(st.value.args) == 1 and not st.value.keywords and not isinstance(st.value.args[0], ast.Starred):
+                apps.append(f.value.id)
+                continue
             return None
-        call = st.value
-        f = call.func
-        if not (isinstance(f, ast.Attribute) and f.attr == "append" and isinstance(f.value, ast.Name)):
-            return None
-        if len(call.args) != 1 or call.keywords or isinstance(call.args[0], ast.Starred):
-            return None
-        out.append((f.value.id, call.args[0]))
-    return out
+        if isinstance(st, ast.Assign) and all(isinstance(t, (ast.Name, ast.Tuple)) for t in st.targets):
+            for t in st.targets:
+                for n in ast.walk(t):
+                    if isinstance(n, ast.Name):
+                        assigned.append(n.id)
+                    elif not isinstance(n, (ast.Tuple, ast.Store, ast.Load)):
+                        return None
+            continue
+        if isinstance(st, ast.AnnAssign) and isinstance(st.target, ast.Name) and st.value is not None:
+            assigned.append(st.target.id)
+            continue
+        if isinstance(st, ast.Expr) and isinstance(st.value, ast.Constant):
+            continue
+        return None
+    if len(set(apps)) != len(apps) or not apps:
+        return None
+    if set(apps) & set(assigned):
+        return None
+    return apps, assigned
 
 
 def exec_symbolic_for(interp, node, seq, env):
@@ -151,44 +183,49 @@ def exec_symbolic_for(interp, node, seq, env):
             return rule(interp, node, seq, env)
     if node.orelse:
         raise Unsupported("for/else over a symbolic sequence")
-    apps = _append_targets(node.body)
-    if apps is None:
+    shape = _map_loop_shape(node.body)
+    if shape is None:
         raise Unsupported(f"loop over a symbolic sequence at line {node.lineno} is not a pure map and has no invariant")
-    names = [n for n, _ in apps]
-    if len(set(names)) != len(names):
-        raise Unsupported("several appends to one list per iteration")
+    names, assigned = shape
     for n in names:
         lst = interp.lookup(n, env)
         if not (isinstance(lst, list) and len(lst) == 0):
-            raise Unsupported("map-idiom loop appends to a non-empty or non-list target")
+            raise Unsupported("map-style loop appends to a non-empty or non-list target")
     snapshot = dict(env.vars)
-    for n, expr in apps:
 
-        def elem(i, _expr=expr):
-            e2 = _child_env(interp, env)
-            e2.vars.update(snapshot)
-            interp.assign(node.target, seq.elem(i), e2)
-            return interp.eval(_expr, e2)
+    def iteration(i):
+        """evaluate one iteration on a copy of the scope; returns {list name: appended value}"""
+        e2 = _child_env(interp, env)
+        e2.vars.update(snapshot)
+        cols = {n: _Collector(n) for n in names}
+        e2.vars.update(cols)
+        interp.assign(node.target, seq.elem(i), e2)
+        interp.exec_block(node.body, e2)
+        return {n: cols[n].items[0] for n in names}, e2
 
-        j = c.fresh_index(seq.n, "m")
-        nd = len(c.decisions)
-        elem(j)
-        if len(c.decisions) != nd:
-            raise Unsupported("loop body branches on a per-item condition")
-        env.vars[n] = SSeq(seq.n, elem, f"{n}@{node.lineno}")
-    # python leaves the loop variable bound to the last item
-    last = seq.elem(T.sub(seq.n, 1))
+    j = c.fresh_index(seq.n, "m")
+    nd = len(c.decisions)
+    iteration(j)
+    if len(c.decisions) != nd:
+        raise Unsupported("loop body branches on a per-item condition")
+    for n in names:
+        env.vars[n] = SSeq(seq.n, (lambda i, _n=n: iteration(i)[0][_n]), f"{n}@{node.lineno}")
+    # python leaves the loop variable and the body's locals bound to the last iteration's values
     try:
-        interp.assign(node.target, last, env)
+        _, elast = iteration(T.sub(seq.n, 1))
+        for k in assigned:
+            if k in elast.vars:
+                env.vars[k] = elast.vars[k]
+        interp.assign(node.target, seq.elem(T.sub(seq.n, 1)), env)
+    except Unsupported:
+        raise
     except Exception:
         pass
 
 
 def _loop_ordinal(fnode, loop):
-    k = 0
-    for n in ast.walk(fnode):
-        if isinstance(n, (ast.For, ast.While)):
-            if n is loop:
-                return k
-            k += 1
+    loops = sorted((n for n in ast.walk(fnode) if isinstance(n, (ast.For, ast.While))), key=lambda n: (n.lineno, n.col_offset))
+    for k, n in enumerate(loops):
+        if n is loop:
+            return k
     return -1
